@@ -314,8 +314,9 @@ def h_dict(op: int, ek: int, ok: int, o0: int, o1: int, o2: int, p0: int, p1: in
     b = Builder([o0, o1, o2], [V(p0), V(p1), V(p2)])
     expected, dens = {}, {}
     if fz:
-        # plain falsy values are outside the domain of the ordering matchers: equality/identity/constant leaves only
-        b.leaves = (0, 1, 4, 5, 6, 7)
+        # plain falsy values are outside the domain of the ordering matchers; the point of this mode is the truthiness
+        # of observed values, not the kind of leaf: every per-key matcher is Equals(p)
+        b.leaves = (0,)
     descs = []
     for i, key in enumerate(KEYS):
         if e & (1 << i):
